@@ -179,6 +179,7 @@ func c26exec(t *testing.T, rng *rand.Rand) *c26result {
 	ka := []time.Duration{10 * time.Second, 60 * time.Second, time.Hour}[rng.Intn(3)]
 	will := rng.Intn(3) == 0
 	res.ka, res.will = ka, will
+	early := rng.Intn(4) == 0 // the broker sends a retained-style message right after SUBSCRIBE, before its SUBACK
 	var evs []world.Ev
 	var expPubs []c26expPub
 	var expSubs []string // "S filter qos" / "U filter"
@@ -192,7 +193,7 @@ func c26exec(t *testing.T, rng *rand.Rand) *c26result {
 		if will {
 			cfg.WillTopic, cfg.WillPayload, cfg.WillQOS, cfg.WillRetained = "will/cl", []byte("gone"), 1, true
 		}
-		f := newFullWorld(world.GWConfig{Predefined: c26Predefined(), RetryDelay: 10 * time.Second, RetryCount: 2}, world.BrokerCfg{FirstID: 1, Route: true}, cfg)
+		f := newFullWorld(world.GWConfig{Predefined: c26Predefined(), RetryDelay: 10 * time.Second, RetryCount: 2}, world.BrokerCfg{FirstID: 1, Route: true, EarlyPublish: early}, cfg)
 		tr := f.W.Tr
 		call := func(name string, fn func() error) {
 			if hung != "" {
